@@ -6,7 +6,7 @@
      Layer(k, s = type)                       stack description (bottom -> top); Cfg(a = 1 iff the top layer is a
                                               CancelOnShutdownExecutor whose returned futures are tapped as "tap<top>")
      SubmitCall(f) / SubmitRet(f) / SubmitRaise(f, a = 1 iff RuntimeError('cannot schedule new futures after shutdown'))
-     ShutdownCall(s = "top", a = wait) / ShutdownRet(s = "top") / ShutdownRaise
+     ShutdownCall(s = "top", a = wait, b = cancel_futures, c = number of keyword arguments) / ShutdownRet / ShutdownRaise
      DelegateShutdown(s = "tap<i>", a = wait, b = cancel_futures, c = number of keyword arguments)
      CancelArrived(f, s = "tap<i>", r = role of the calling thread)   cancel() arriving at a future returned by tap i
      DelegateState(f, c = i, s = state)       state change of such a future
@@ -26,7 +26,7 @@ ObsInit == [cos |-> 0,             \* index of the tap whose futures the cancel-
             calling |-> EmptyMap,  \* f -> TRUE if its SubmitCall came after shutdown() had returned
             done |-> {},           \* returned futures seen done (at the cos tap level)
             att |-> EmptyMap,      \* f -> number of cancel() calls made by the shutdown thread
-            shcalls |-> 0, shrets |-> 0, wait |-> -1, nkw |-> -1,
+            shcalls |-> 0, shrets |-> 0, wait |-> -1, nkw |-> -1, cf |-> -1,
             dsh |-> EmptyMap,      \* tap -> number of DelegateShutdown calls
             dshopen |-> FALSE,     \* the cancel-on-shutdown layer's delegate.shutdown() call is in progress
             shthreads |-> {},      \* threads that called shutdown()
@@ -46,14 +46,16 @@ ObsNext(st, e) ==
     [] e.ev = "CancelArrived" /\ TapOf(e) = st.cos /\ st.cos > 0 /\ e.r = "shutdown" /\ ~st.dshopen ->
           [st EXCEPT !.att = Put(@, e.f, Get(@, e.f, 0) + 1)]
     [] e.ev = "ShutdownCall" -> [st EXCEPT !.shcalls = @ + 1, !.wait = IF st.shcalls = 0 THEN e.a ELSE @,
+                                           !.cf = IF st.shcalls = 0 THEN e.b ELSE @,
+                                           !.nkw = IF st.shcalls = 0 THEN e.c ELSE @,
                                            !.shthreads = @ \cup {e.thr}]
     [] e.ev = "DelegateShutdownRet" /\ TapOf(e) = st.cos /\ st.cos > 0 -> [st EXCEPT !.dshopen = FALSE]
     [] e.ev = "ShutdownRet" -> [st EXCEPT !.shrets = @ + 1]
     [] e.ev = "DelegateShutdown" ->
           [st EXCEPT !.dsh = Put(@, TapOf(e), Get(@, TapOf(e), 0) + 1),
                      !.dshopen = IF TapOf(e) = st.cos /\ st.cos > 0 THEN TRUE ELSE @,
-                     !.nkw = IF st.nkw = -1 THEN e.c ELSE @,
-                     !.dshok = @ /\ e.a = st.wait /\ (st.nkw = -1 \/ e.c = st.nkw)]
+                     \* the very arguments of the (first) shutdown() call: wait, cancel_futures, nothing added or dropped
+                     !.dshok = @ /\ e.a = st.wait /\ e.b = st.cf /\ e.c = st.nkw]
     [] e.ev = "ThreadStart" /\ e.r \in WorkerRoles -> [st EXCEPT !.live = @ \cup {e.s}]
     [] e.ev = "ThreadExit" /\ e.r \in WorkerRoles ->
           [st EXCEPT !.live = @ \ {e.s}, !.died = IF e.a = 1 THEN @ \cup {e.s} ELSE @]
